@@ -469,6 +469,25 @@ def disk_event(rec: Recorder, folder: str) -> dict:
 # ------------------------------------------------------------------------------------------------
 # the script runner
 # ------------------------------------------------------------------------------------------------
+def _logged_eps_agent(n_actions: int, eps: float):
+    from black_it.schedulers.rl.agents.epsilon_greedy import MABEpsilonGreedy
+
+    class LoggedEps(MABEpsilonGreedy):
+        def policy(self, obs):
+            a = super().policy(obs)
+            if REC is not None:
+                REC.agent_log.append(("policy", REC.session, int(a)))
+            return a
+
+        def learn(self, state, action, reward, next_state):
+            super().learn(state, action, reward, next_state)
+            if REC is not None:
+                REC.agent_log.append(("learn", REC.session, int(action), float(reward)))
+    globals()["LoggedEps"] = LoggedEps
+    LoggedEps.__module__, LoggedEps.__qualname__ = __name__, "LoggedEps"
+    return LoggedEps(n_actions=n_actions, alpha=-1, eps=eps)
+
+
 def build_scheduler(cfg, samplers, agent_choices):
     if cfg["kind"] == "rr":
         return None
@@ -477,7 +496,7 @@ def build_scheduler(cfg, samplers, agent_choices):
 
     has_halton = any(type(s).__name__ == "HaltonSampler" for s in samplers)
     n_eff = len(samplers) + (0 if has_halton else 1)
-    agent = ScriptedAgent(agent_choices or [0])
+    agent = _logged_eps_agent(n_eff, cfg["eps"]) if cfg.get("eps") is not None else ScriptedAgent(agent_choices or [0])
     env = MABCalibrationEnv(nb_samplers=n_eff)
     return RLScheduler(samplers, agent=agent, env=env)
 
